@@ -501,6 +501,9 @@ func genUniverse(r *rand.Rand, nInputs int) (simdoh.Zone, []Input) {
 	if core.Chance(r, 2, 5) {
 		g.poison()
 	}
+	if core.Chance(r, 1, 6) {
+		g.z.Bulk = core.Pick(r, []int{900, 1100, 3000})
+	}
 	if core.Chance(r, 1, 8) {
 		// an upstream that does not chase CNAMEs (every answer is the one CNAME
 		// record) - and, half of the time, a CNAME cycle that only shows when
